@@ -6,6 +6,7 @@ import (
 	"os"
 	"os/exec"
 	"path/filepath"
+	"regexp"
 	"runtime"
 	"sort"
 	"strings"
@@ -86,7 +87,7 @@ func c11N(tier string) int {
 	return 160
 }
 
-var c11Scenarios = []string{"shared-pointers", "disjoint-pointers", "shared-unique-ids", "duplicated-unique-ids", "identical-twins", "empty-side", "rotated-pointers", "unique-ids-on-different-people", "rotated-pointers-only"}
+var c11Scenarios = []string{"shared-pointers", "disjoint-pointers", "shared-unique-ids", "duplicated-unique-ids", "identical-twins", "empty-side", "rotated-pointers", "unique-ids-on-different-people", "rotated-pointers-only", "perfect-twins"}
 
 func init() {
 	fw.Register(&fw.Prop{
@@ -120,8 +121,8 @@ func init() {
 	})
 }
 
-// c11BigCase: scenario shared-pointers (i % 9 == 0), Jobs 8, GOMAXPROCS 16.
-const c11BigCase = 144
+// c11BigCase: scenario shared-pointers (i % 10 == 0); Jobs and GOMAXPROCS are set for it below.
+const c11BigCase = 150
 
 type c11Key struct{ l, r string }
 
@@ -192,6 +193,26 @@ func c11Run(c *fw.Ctx, i int) {
 		if r.Bool() {
 			base, right = right, base
 		}
+	case "perfect-twins":
+		// complete records (name, birth, death, both parents known): twins
+		// score exactly 1 with each other's copies, and nothing but the scores
+		// identifies anybody (other pointers on the right, no unique ids)
+		base = gen.NewFG(r, gen.FGOpts{People: r.Range(4, 14), ExactDates: true, NoLiving: true})
+		var kids []*gen.Person
+		for _, p := range base.People {
+			if len(p.FamC) > 0 && !p.NoName && p.Ev("BIRT") != nil && p.Ev("DEAT") != nil {
+				kids = append(kids, p)
+			}
+		}
+		for k := 0; k < 2 && len(kids) > 0; k++ {
+			p := kids[r.Intn(len(kids))]
+			tw := base.ClonePerson(p, fmt.Sprintf("T%d", k))
+			tw.FamC = append([]int{}, p.FamC...)
+			for _, fi := range p.FamC {
+				base.Families[fi].Kids = append(base.Families[fi].Kids, tw.Idx)
+			}
+		}
+		right = c10EditedCopy(r, base, true, false)
 	case "unique-ids-on-different-people":
 		// the k-th people of two unrelated documents carry the same unique id:
 		// a certain match that the similarity matrix would never find again
@@ -231,11 +252,17 @@ func c11Run(c *fw.Ctx, i int) {
 	if i%5 == 0 {
 		procs = []int{1, 2, 16}[r.Intn(3)]
 	}
+	if i == c11BigCase {
+		jobs, procs = 8, 16
+	}
 	sim := gedcom.NewSimilarityOptions()
 	conf := "default"
 	pick := r.Intn(6)
 	if (scen == "rotated-pointers" && r.Bool()) || (scen == "rotated-pointers-only" && r.Chance(3, 4)) {
 		pick = 2
+	}
+	if i == c11BigCase {
+		pick = 5 // default thresholds: a matrix of a million pairs at threshold 0 is not what this case is for
 	}
 	switch pick {
 	case 0:
@@ -460,6 +487,11 @@ func c11Run(c *fw.Ctx, i int) {
 		}
 	}
 
+	// ---- the options of the real CLI: same matching as the library with the same values ----
+	if bin := os.Getenv("VERIF_GEDCOM_BIN"); bin != "" && i%8 == 2 {
+		c11CLIOptions(c, i, bin)
+	}
+
 	// ---- the real CLI built with the race detector ----
 	if bin := os.Getenv("VERIF_GEDCOM_BIN"); bin != "" && i%4 == 0 && i != c11BigCase && len(base.People) > 0 && len(right.People) > 0 {
 		dir := os.Getenv("VERIF_SCRATCH")
@@ -516,4 +548,155 @@ func c11Ptr(n *gedcom.IndividualNode) string {
 		return "-"
 	}
 	return n.Pointer()
+}
+
+var (
+	c11FirstTable = regexp.MustCompile(`(?s)<table.*?</table>`)
+	c11Row        = regexp.MustCompile(`(?s)<tr.*?</tr>`)
+	c11Cell       = regexp.MustCompile(`(?s)<td.*?</td>`)
+)
+
+// c11CLIOptions: 'gedcom diff' run with explicit -minimum-similarity,
+// -minimum-weighted-similarity, -prefer-pointer-above and -jobs must pair the
+// individuals as IndividualNodes.Compare does with the same values. Everybody
+// has a unique given name, so the pairs can be read off the index table of the
+// report (left individual, similarity, right individual).
+func c11CLIOptions(c *fw.Ctx, i int, bin string) {
+	r := c.R
+	base := gen.NewFG(r, gen.FGOpts{People: r.Range(2, 9), UniqueTokens: true, TokenBase: 20000 + i*50%9000, ExactDates: true, NoLiving: true})
+	right := c10EditedCopy(r, base, true, r.Bool())
+	// blur some of the copies so that their scores spread between the thresholds
+	for _, p := range right.People {
+		switch r.Intn(4) {
+		case 0:
+			if e := p.Ev("BIRT"); e != nil {
+				e.Y += r.Range(1, 3)
+			}
+		case 1:
+			if e := p.Ev("DEAT"); e != nil {
+				e.Y -= r.Range(1, 2)
+			}
+		case 2:
+			p.Surname = p.Surname + "x"
+		}
+	}
+	base.Head, right.Head = false, false
+	lt, rt := base.Text(), right.Text()
+	ms := []float64{0.5, 0.65, 0.733, 0.8, 0.9, 0.97, 1}[r.Intn(7)]
+	mws := []float64{0.5, 0.65, 0.733, 0.8, 0.9, 0.97, 1}[r.Intn(7)]
+	ppa := []float64{0, 0.5, 0.95, 1}[r.Intn(4)]
+	jobs := []int{1, 2, 4}[r.Intn(3)]
+	payload := map[string]interface{}{"left": lt, "right": rt, "minimum-similarity": ms, "minimum-weighted-similarity": mws, "prefer-pointer-above": ppa, "jobs": jobs}
+	ld, e1 := gedcom.NewDocumentFromString(lt)
+	rd, e2 := gedcom.NewDocumentFromString(rt)
+	if e1 != nil || e2 != nil {
+		c.HarnessError(fmt.Sprintf("C11 CLI inputs do not decode: %v %v", e1, e2))
+		return
+	}
+	o := gedcom.NewIndividualNodesCompareOptions()
+	o.SimilarityOptions.MinimumSimilarity = ms
+	o.SimilarityOptions.MinimumWeightedSimilarity = mws
+	o.SimilarityOptions.PreferPointerAbove = ppa
+	o.Jobs = jobs
+	given := func(n *gedcom.IndividualNode) string {
+		if n == nil {
+			return "-"
+		}
+		return strings.ToLower(strings.Fields(n.Name().String() + " -")[0])
+	}
+	want := map[string]bool{}
+	scores := map[string]int{}
+	for _, cmp := range ld.Individuals().Compare(rd.Individuals(), o) {
+		want[given(cmp.Left)+"~"+given(cmp.Right)] = true
+	}
+	// ties between candidate pairs make the pairing a matter of order: no comparison then
+	for _, a := range ld.Individuals() {
+		for _, b := range rd.Individuals() {
+			ws := a.SurroundingSimilarity(b, o.SimilarityOptions, false).WeightedSimilarity()
+			if ws >= mws {
+				scores[fmt.Sprintf("L%s:%.9f", a.Pointer(), ws)]++
+				scores[fmt.Sprintf("R%s:%.9f", b.Pointer(), ws)]++
+			}
+		}
+	}
+	for _, n := range scores {
+		if n > 1 {
+			c.Count("cli-options-skipped-ties", 1)
+			return
+		}
+	}
+	dir := os.Getenv("VERIF_SCRATCH")
+	if dir == "" {
+		dir = os.TempDir()
+	}
+	pfx := filepath.Join(dir, fmt.Sprintf("c11o-%d-%d", os.Getpid(), i))
+	os.WriteFile(pfx+"-l.ged", []byte(lt), 0o644)
+	os.WriteFile(pfx+"-r.ged", []byte(rt), 0o644)
+	defer func() {
+		for _, f := range []string{"-l.ged", "-r.ged", ".html"} {
+			os.Remove(pfx + f)
+		}
+		logs, _ := filepath.Glob(pfx + ".race.*")
+		for _, lf := range logs {
+			os.Remove(lf)
+		}
+	}()
+	args := []string{"diff", "-left-gedcom", pfx + "-l.ged", "-right-gedcom", pfx + "-r.ged", "-output", pfx + ".html", "-show", "all", "-jobs", fmt.Sprint(jobs),
+		"-minimum-similarity", fmt.Sprint(ms), "-minimum-weighted-similarity", fmt.Sprint(mws), "-prefer-pointer-above", fmt.Sprint(ppa)}
+	out, err, okRun := runCLI(c, "cli-diff", payload, append(os.Environ(), "GORACE=halt_on_error=0 exitcode=0 log_path="+pfx+".race"), 600, bin, args...)
+	if !okRun {
+		return
+	}
+	if err != nil {
+		c.Violation("cli-diff-failed", fmt.Sprintf("gedcom %s failed: %v\n%s", strings.Join(args, " "), err, clip(out, 600)), payload)
+		return
+	}
+	page, rerr := os.ReadFile(pfx + ".html")
+	if rerr != nil {
+		c.Violation("cli-diff-failed", "gedcom diff wrote no report", payload)
+		return
+	}
+	table := c11FirstTable.Find(page)
+	names := map[string]bool{}
+	for _, p := range append(append([]*gen.Person{}, base.People...), right.People...) {
+		names[strings.ToLower(strings.Fields(p.Given + " -")[0])] = true
+	}
+	cellName := func(cell []byte) string {
+		text := strings.ToLower(string(cell))
+		for n := range names {
+			if strings.Contains(text, n) {
+				return n
+			}
+		}
+		return "-"
+	}
+	got := map[string]bool{}
+	for _, row := range c11Row.FindAll(table, -1) {
+		cells := c11Cell.FindAll(row, -1)
+		if len(cells) != 3 {
+			continue
+		}
+		l, rr := cellName(cells[0]), cellName(cells[2])
+		if l == "-" && rr == "-" {
+			continue
+		}
+		got[l+"~"+rr] = true
+	}
+	c.Count("cli-options-compared", 1)
+	var missing, extra []string
+	for k := range want {
+		if !got[k] {
+			missing = append(missing, k)
+		}
+	}
+	for k := range got {
+		if !want[k] {
+			extra = append(extra, k)
+		}
+	}
+	if len(missing)+len(extra) > 0 {
+		sort.Strings(missing)
+		sort.Strings(extra)
+		c.Violation("cli-diff-pairs-differ-from-library", fmt.Sprintf("gedcom diff -minimum-similarity %v -minimum-weighted-similarity %v -prefer-pointer-above %v -jobs %d pairs the individuals differently from IndividualNodes.Compare with the same values (no ties)\nonly in the library result: %v\nonly in the report:         %v", ms, mws, ppa, jobs, missing, extra), payload)
+	}
 }
